@@ -103,9 +103,26 @@ def skeleton(b):
 
 def shared_bodies(f):
     res = {}
+    from pvrules import inline
+    baseline = inline.load_baseline() or set()
+    called = set()
+    for k in f.order:
+        for c in f.bodies[k].calls():
+            called.add(c.res or "")
+            called.add(c.callee or "")
     for k in f.order:
         b = f.bodies[k]
         if is_model(b.path) or any(r.search(b.path) for r in SKIP_BODY) or "::tests::" in b.path:
+            continue
+        new_private_type = False
+        if b.raw.get("impl_self"):
+            import json as _json
+            adts0 = set(_json.load(open(inline.BASELINE)).get("adts", []))
+            st_ = re.sub(r"<.*$", "", b.raw["impl_self"].lstrip("&"))
+            new_private_type = bool(adts0) and st_.startswith("prometheus::") and st_ not in adts0
+        if baseline and b.path not in baseline and "{closure" not in b.path and b.path not in called and (b.raw.get("vis") != "pub" or new_private_type):
+            # a private function that did not exist on the pinned tree and that nothing calls in this configuration (its only users are compiled out, e.g. the
+            # protobuf encoder): dead code here, expanded into its callers in the other configuration -- not part of either configuration's shared behaviour
             continue
         res[strip_generics(b.path)] = b
     return res
